@@ -71,10 +71,10 @@ func sameType(x, y types.Type) bool {
 // boolean term ("true"/"false" when decided concretely).
 func (m *machine) eqTerm(t types.Type, x, y value) string {
 	if sx, ok := x.(*symv); ok {
-		return symEq(sx, y)
+		return m.symEq(sx, y)
 	}
 	if sy, ok := y.(*symv); ok {
-		return symEq(sy, x)
+		return m.symEq(sy, x)
 	}
 	switch x := x.(type) {
 	case structure:
@@ -132,7 +132,12 @@ func (m *machine) eqTerm(t types.Type, x, y value) string {
 	return "false"
 }
 
-func symEq(s *symv, o value) string {
+func (m *machine) symEq(s *symv, o value) string {
+	if s.tbl != nil && (isConcScalar(o) || tblOf(o) != nil) {
+		if r, _, ok := m.lift([]value{s, o}, func(c []value) (value, bool) { return equalsConcrete(c[0], c[1]), true }); ok {
+			return termOf(r)
+		}
+	}
 	ot := termOf(o)
 	if s.t == ot {
 		return "true"
